@@ -646,6 +646,7 @@ impl<'a> Lexer<'a> {
         if CARDINALS_TRIE.contains_prefix(buffer.as_str()) {
             self.advance();
             loop {
+                #[cfg(asca_verif)] crate::verif::tick(51);
                 let mut tmp = buffer.clone(); 
                 tmp.push(self.cur_as_ipa());
                 if CARDINALS_TRIE.contains_prefix(tmp.as_str()) {
@@ -852,6 +853,7 @@ impl<'a> Lexer<'a> {
     pub(crate) fn get_line(&mut self) -> Result<Vec<Token>, RuleSyntaxError> {
         let mut token_list: Vec<Token> =  Vec::new();
         loop {
+            #[cfg(asca_verif)] crate::verif::tick(52);
             let next_token = self.get_next_token()?;
             if let TokenKind::Eol = next_token.kind {
                 token_list.push(next_token);
